@@ -1903,7 +1903,14 @@ class Executor(object):
             o = st.obj(v)
             fld = self.mangle(parts[-1], ctx)
             if fld in o.fields:
-                o.fields[fld] = self.havoc_like(o.fields[fld], fld)
+                cur = o.fields[fld]
+                if isinstance(cur, Ref) and cur.oid in st.heap and st.heap[cur.oid].kind == "dict" and isinstance(st.heap[cur.oid].items, dict):
+                    # a dict with literal keys that the loop body stores into: it stays that dict, every value becomes arbitrary (a key the
+                    # body adds is written before it is read on the path that reads it, or the read raises KeyError and the path shows it)
+                    d = st.heap[cur.oid]
+                    d.items = {k_: self.havoc_like(x_, "%s[%s]" % (fld, k_)) for k_, x_ in d.items.items()}
+                else:
+                    o.fields[fld] = self.havoc_like(cur, fld)
 
     def _loop_key(self, st, mods):
         def show(v, depth=0):
@@ -2054,6 +2061,9 @@ class Executor(object):
                         self.havoc_object(v.oid, st, done)
                 elif is_z3(v) or isinstance(v, (SeqVal, ConcVec, Fraction)) or (isinstance(v, (int, bool)) and not isinstance(v, str)):
                     o.fields[k] = self.havoc_like(v, k)
+        elif o.kind == "dict" and isinstance(o.items, dict):
+            # a dict with literal keys: every value becomes arbitrary (see havoc_attr_path)
+            o.items = {k_: self.havoc_like(x_, "dict[%s]" % (k_,)) for k_, x_ in o.items.items()}
         elif o.kind in ("list", "dict"):
             if o.items:
                 raise Unsupported("a literal %s that the loop body mutates through a method call cannot be cut by an invariant (make it a symbolic-length list)" % o.kind)
